@@ -367,10 +367,16 @@ def make_image_converter(spec, log):
     import mammoth
     if spec is None or spec.get("kind") != "fixed":
         return None
+    kept = {}     # spec["share"]: key -> [the dict the converter keeps and hands out again, what the converter itself put in it]
+    ncalls = [0]
+    touched = set()
 
     def f(image):
         entry = {"alt": image.alt_text, "ct": image.content_type}
         attrs = dict()
+        ncalls[0] += 1
+        if spec.get("count"):
+            attrs["data-n"] = str(ncalls[0])      # a numbering converter (like the CLI's image writer): differs from call to call
         for k, v in spec["attrs"]:
             attrs[k] = v
         if spec.get("open"):
@@ -379,9 +385,27 @@ def make_image_converter(spec, log):
             entry["len"] = len(data)
             entry["bytes"] = data.hex()
             attrs["data-len"] = str(len(data))
+        if spec.get("share"):
+            # a converter that remembers its result (one constant dict, or one per distinct picture / type - a de-duplicating
+            # uploader) and returns the SAME dict object again; equivalent to returning a new dict unless the library writes into it
+            key = "*" if spec["share"] == "all" else entry.get("bytes", "type:%s" % entry["ct"])
+            slot = kept.setdefault(key, [{}, {}])
+            if slot[0] != slot[1]:
+                touched.add(key[:40])       # somebody else wrote into the converter's dict since the last call
+            slot[0].update(attrs)
+            slot[1].update(attrs)
+            entry["ret"] = sorted(slot[1].items())      # what the converter itself put there
+            attrs = slot[0]
+        else:
+            entry["ret"] = sorted(attrs.items())
         log.append(entry)
         return attrs
-    return mammoth.images.img_element(f)
+    conv = mammoth.images.img_element(f)
+    try:
+        conv.verif_mutated = lambda: sorted(touched | set(k[:40] for k, (d, own) in kept.items() if d != own))
+    except Exception:  # noqa
+        pass
+    return conv
 
 
 def real_options(opts, log):
@@ -477,6 +501,8 @@ def _run_real(data, opts, name=None, want_doc=True):
         out["messages"] = [m.message for m in r.messages]
         out["types"] = sorted({m.type for m in r.messages})
         out["value_is_str"] = isinstance(r.value, str)
+        if hasattr(kw.get("convert_image"), "verif_mutated"):
+            out["convMutated"] = kw["convert_image"].verif_mutated()
     except Exception as e:  # noqa
         out["err"] = err_kind(e)
         out["err_text"] = repr(e)[:300]
